@@ -27,6 +27,10 @@ N16 `getattr(x, "name")` with a literal identifier and no default  ->  `x.name`
 N17 copy coalescing: in one statement list, `x = t` where every other occurrence of the local t lies in the statements
     before it (from t's first occurrence on) and x does not occur in that stretch: t is renamed to x there and the copy
     is dropped (`tmp = {}; tmp[k] = v; fields = tmp`  ->  `fields = {}; fields[k] = v`)
+N18 inside a class with exactly one base B: `super().m(...)` / `super(C, self).m(...)`  ->  `B.m(self, ...)`
+    (`B.__new__(cls, ...)` keeps its explicit first argument) -- the explicit spelling of the same call under single inheritance
+N19 a list comprehension that is only iterated by its consumer (`join`, `list`, `tuple`, `set`, `sorted`, `any`, `all`, `sum`,
+    `min`, `max`, `dict`, `OrderedDict`)  ->  the generator expression
 N7  (Program level, propagate_constants) a name that resolves to a module-level constant of the package bound exactly
     once to a str/bytes/number/bool/None literal is replaced by that literal, so that a literal and a named
     constant with the same value are the same thing to every rule.
@@ -179,6 +183,10 @@ class _N3456(ast.NodeTransformer):
             m = self._as_map(node.args[0])
             if m is not None:
                 node.args[0] = m
+        consumer2 = consumer or (isinstance(node.func, ast.Name) and node.func.id in ("any", "all", "sum", "min", "max", "dict", "OrderedDict"))
+        if consumer2 and len(node.args) >= 1 and isinstance(node.args[0], ast.ListComp):
+            g = ast.GeneratorExp(elt=node.args[0].elt, generators=node.args[0].generators)
+            node.args[0] = ast.copy_location(g, node.args[0])
         if isinstance(node.func, ast.Name) and node.func.id == "getattr" and len(node.args) == 2 and not node.keywords \
                 and isinstance(node.args[1], ast.Constant) and isinstance(node.args[1].value, str) and node.args[1].value.isidentifier():
             return ast.copy_location(ast.Attribute(value=node.args[0], attr=node.args[1].value, ctx=ast.Load()), node)
@@ -617,6 +625,45 @@ class _N15(ast.NodeTransformer):
         return node
 
 
+def _n18(tree):
+    for cls in [n for n in ast.walk(tree) if isinstance(n, ast.ClassDef)]:
+        if len(cls.bases) != 1 or cls.keywords:
+            continue
+        base = cls.bases[0]
+        for m in cls.body:
+            if not isinstance(m, (ast.FunctionDef, ast.AsyncFunctionDef)) or not m.args.args:
+                continue
+            first = m.args.args[0].arg
+            static = any(isinstance(d, ast.Name) and d.id == "staticmethod" for d in m.decorator_list)
+            if static:
+                continue
+
+            class T(ast.NodeTransformer):
+                def visit_Call(self, node):
+                    self.generic_visit(node)
+                    f = node.func
+                    if isinstance(f, ast.Attribute) and isinstance(f.value, ast.Call) and isinstance(f.value.func, ast.Name) and f.value.func.id == "super" \
+                            and (not f.value.args or (len(f.value.args) == 2 and isinstance(f.value.args[0], ast.Name) and f.value.args[0].id == cls.name)):
+                        import copy
+                        newf = ast.Attribute(value=copy.deepcopy(base), attr=f.attr, ctx=ast.Load())
+                        ast.copy_location(newf, f)
+                        for y in ast.walk(newf):
+                            ast.copy_location(y, f)
+                        args = list(node.args)
+                        if f.attr != "__new__":
+                            nm = ast.Name(id=first, ctx=ast.Load())
+                            ast.copy_location(nm, f)
+                            args = [nm] + args
+                        node.func = newf
+                        node.args = args
+                    return node
+
+                def visit_ClassDef(self, node):
+                    return node
+            for i, st in enumerate(m.body):
+                m.body[i] = T().visit(st)
+
+
 def _n14(tree):
     for node in ast.walk(tree):
         for field in ("body", "orelse", "finalbody"):
@@ -650,6 +697,7 @@ def _n14(tree):
 
 def normalize(tree):
     tree = _N3456().visit(tree)
+    _n18(tree)
     tree = _N15().visit(tree)
     _n14(tree)
     tree = _N11().visit(tree)
